@@ -56,6 +56,8 @@ def check(tier, seed, replay=None):
         "exhaustive": tier == "thorough" and not replay,
         "rejected_non_continuous": sum(1 for s in v.stats if s[2] == "rejected"),
         "families": meta,
+        "unverifiable_overflow": v.overflow_ids[:10],
+        "unverifiable_overflow_count": len(v.overflow_ids),
     }
     o.assumptions = ["points are sampled on the grid {0,1/2,1,2,3} per image column (both halves of a split independently)",
                      "hook H2 accessors return the fields of StandardLinearModel unchanged"]
